@@ -50,12 +50,14 @@ def same(a, b):
     return a == b
 
 
-def twin_pc(c):
+def twin_pc(c, ratio=1.0):
     """the same WCS described through PC + CDELT instead of CD"""
     from tweakwcs.correctors import FITSWCSCorrector
     w = c.wcs
     cd = w.wcs.cd.copy()
-    cdelt = np.array([np.hypot(cd[0, 0], cd[1, 0]), np.hypot(cd[0, 1], cd[1, 1])])
+    # CDELT1 != CDELT2, usual sign convention, arbitrary ratio: CD = diag(cdelt) . PC
+    sc = np.sqrt(abs(np.linalg.det(cd)))
+    cdelt = np.array([-sc * ratio, sc / ratio])
     # CD = diag(cdelt) . PC
     pc = np.dot(np.diag(1.0 / cdelt), cd)
     w2 = fitswcs.WCS(naxis=2)
@@ -74,32 +76,47 @@ def twin_pc(c):
 def run(ctx):
     rng = ctx.rng
     from tweakwcs.correctors import FITSWCSCorrector
-    # rejection of unsupported structures
-    for _ in range(ctx.n(6, 60)):
-        kind = rng.choice(['none', 'noncelestial', 'mixed'])
+    # rejection of unsupported structures (every kind on every run)
+    def reject_case(kind, build):
         case = {'reject': kind}
         ctx.case(case, nontrivial=True, branch='reject:' + kind)
         try:
-            if kind == 'none':
-                FITSWCSCorrector(None)
-            elif kind == 'noncelestial':
-                w = fitswcs.WCS(naxis=2)
-                w.wcs.ctype = ['WAVE', 'TIME'] if rng.random() < 0.5 else ['', '']
-                w.pixel_shape = (100, 100)
-                w.wcs.set()
-                FITSWCSCorrector(w)
-            else:
-                w = fitswcs.WCS(naxis=3)
-                w.wcs.ctype = ['RA---TAN', 'DEC--TAN', 'WAVE']
-                w.pixel_shape = (100, 100, 10)
-                w.wcs.set()
-                FITSWCSCorrector(w)
+            FITSWCSCorrector(build())
             ctx.oracle_fail(case, {'what': 'unsupported WCS structure accepted at construction'})
         except ValueError:
             pass
         except Exception as e:
             ctx.oracle_fail(case, {'what': 'unsupported WCS structure raised %s instead of ValueError'
                                            % type(e).__name__, 'msg': str(e)[:200]})
+
+    def nc2d(ctype, crval, cdelt):
+        def b():
+            w = fitswcs.WCS(naxis=2)
+            w.wcs.ctype = ctype
+            w.wcs.crpix = [rng.uniform(10, 90), rng.uniform(10, 90)]
+            w.wcs.crval = crval
+            w.wcs.cdelt = cdelt
+            w.pixel_shape = (100, 100)
+            w.wcs.set()
+            return w
+        return b
+
+    def cube():
+        w = fitswcs.WCS(naxis=3)
+        w.wcs.ctype = ['RA---TAN', 'DEC--TAN', rng.choice(['WAVE', 'FREQ'])]
+        w.wcs.crpix = [50.0, 50.0, 1.0]
+        w.wcs.crval = [rng.uniform(0, 360), rng.uniform(-80, 80), 1.0]
+        w.wcs.cdelt = [-1e-4, 1e-4, 1.0]
+        w.pixel_shape = (100, 100, 10)
+        w.wcs.set()
+        return w
+
+    reject_case('none', lambda: None)
+    reject_case('longslit-WAVE-OFFSET', nc2d(['WAVE', 'OFFSET'], [5e-7, 0.0], [1.5e-10, 0.1]))
+    reject_case('blank-ctype', nc2d(['', ''], [0.0, 0.0], [1.0, 1.0]))
+    reject_case('WAVE-TIME', nc2d(['WAVE', 'TIME'], [1.0, 0.0], [1.0, 1.0]))
+    reject_case('one-celestial-axis', nc2d(['RA---TAN', 'WAVE'], [10.0, 1.0], [1e-4, 1.0]))
+    reject_case('cube-RA-DEC-spectral', cube)
     lines, pend = [], []
     for _ in range(ctx.n(60, 1500)):
         c0, info = scenes.mk_fits(rng)
@@ -137,7 +154,7 @@ def run(ctx):
         # CD / PC twins
         if info['kind'] == 'cd':
             ctx.branch('twins')
-            t0 = twin_pc(c0)
+            t0 = twin_pc(c0, ratio=rng.choice([1.0, 0.5, 2.0, 1.3]))
             t, _ = corrsim.apply_real(t0, hist)
             if t.wcs.wcs.has_cd() or not c.wcs.wcs.has_cd():
                 ctx.oracle_fail(case, {'what': 'CD-versus-PC representation not preserved'})
